@@ -84,6 +84,8 @@ PROFILES = {
 def concretise_step(m, step, profile="default", user_names=None, passwords=None):
     if isinstance(step, str):
         return probe_step(m, step)
+    if len(step) == 3 and step[0] == "cmd":
+        return dict(verb=step[1], arg=step[2], connect=None, payload=b"")
     a, b, c, d, e = step
     t_user, t_pass, t_pasv, t_file, t_xfer = PROFILES[profile]
     user_names = user_names or USER_NAMES
@@ -117,6 +119,9 @@ def concretise_step(m, step, profile="default", user_names=None, passwords=None)
         v = ["RETR", "STOR", "APPE"][b % 3]
     if v == "QUIT" and (e % 4):
         v = "PWD"
+    if m.logged() and (m.cwd or "/") not in m.tree and (b // 16) % 2 == 0:
+        # the working directory has been renamed / removed from under the session: moves relative to it
+        v = ["CDUP", "CDUP", "MLST", "LIST", "CWD"][b % 5]
     if (d // 16) % 5 == 0:
         v = v.lower()
     V = v.upper()
@@ -139,6 +144,9 @@ def concretise_step(m, step, profile="default", user_names=None, passwords=None)
             arg = "/" + NAMES[c % len(NAMES)]
         if V in ("LIST", "MLSD") and c % 7 == 0:
             arg = ""
+        if V in ("RNFR", "RMD") and (m.cwd or "/") != "/" and (d // 2) % 6 == 0:
+            # aim at the working directory itself or at its parent (which then vanishes from under the session)
+            arg = m.cwd if (d // 32) % 2 or parent(m.cwd) == "/" else parent(m.cwd)
     elif V == "TYPE":
         arg = ["I", "A", "E", "i", "", "L 8"][c % 6]
     elif V == "PROT":
@@ -153,7 +161,8 @@ def concretise_step(m, step, profile="default", user_names=None, passwords=None)
         connect = ["before", "before", "after", "never"][e % 4]
     if V in ("STOR", "APPE"):
         payload = PAYLOADS[(e // 4) % len(PAYLOADS)]
-    return dict(verb=v, arg=arg, connect=connect, payload=payload)
+    return dict(verb=v, arg=arg, connect=connect, payload=payload, cwd_vanished=bool(m.logged() and (m.cwd or "/") not in m.tree),
+                cwd_parent_vanished=bool(m.logged() and parent(m.cwd or "/") not in m.tree))
 
 
 def concretise(program, users=USERS, tree=INITIAL_TREE, ipv6=False, profile="default", user_names=None,
@@ -169,6 +178,19 @@ def concretise(program, users=USERS, tree=INITIAL_TREE, ipv6=False, profile="def
     while i + 1 < len(program):
         i += 1
         step = program[i]
+        if not isinstance(step, str) and len(step) == 5 and step[0] == 255 and m.logged():
+            # directed block: descend two fresh levels, pull a level away from under the session, then move relative to
+            # the working directory that no longer exists (CDUP / CWD .. / listing of '')
+            b_, c_, d_ = step[1], step[2], step[3]
+            top = "v%d" % (b_ % 3)
+            victim = [top, top + "/w"][c_ % 2]  # rename the parent of the working directory, or the directory itself
+            after = [("cmd", "CDUP", ""), ("cmd", "CWD", ".."), ("cmd", "MLST", ""), ("cmd", "CDUP", "")][d_ % 4]
+            block = [("cmd", "MKD", top + "/w"), ("cmd", "CWD", top + "/w"), ("cmd", "RNFR", "../../" + victim if victim == top else "../w"),
+                     ("cmd", "RNTO", "/moved%d" % (b_ % 3)), after, "pwd", ("cmd", "CDUP", ""), "pwd"]
+            if d_ % 8 >= 4:
+                block[2:4] = [("cmd", "RMD", "../w")]  # remove the (empty) working directory itself instead
+            program[i:i + 1] = block
+            step = program[i]
         cs = concretise_step(m, step, profile, user_names, passwords)
         if cs["verb"].upper() in pwd_after:
             program.insert(i + 1, "pwd")
